@@ -445,6 +445,16 @@ func (r *EngineRunner) Exec(f []string) (res string) {
 	case "pathstyle":
 		r.pathStyle = atoi(f[2])
 		return ""
+	case "linkdir": // the current logical directory is a symbolic link to the real directory (before its first Open)
+		p := r.dir()
+		if _, err := os.Lstat(p); err == nil {
+			return ""
+		}
+		real := p + ".real"
+		if err := os.MkdirAll(real, 0755); err == nil {
+			_ = os.Symlink(real, p)
+		}
+		return ""
 	case "open":
 		dp := r.dir()
 		if r.pathStyle == 1 || (r.pathStyle == 2 && r.opensDone%2 == 0) {
